@@ -449,7 +449,7 @@ var placeholderPool = []string{`"<Any value>"`, `"x"`, `""`, `"a much longer pla
 
 // ---- YAML rendering of simple trees ---------------------------------------------------------------------------
 
-var yamlKeyPool = []string{"a", "b", "c", "name", "list", "zz", "key", "id", "idToken", "nameLast", "k1", "k10"}
+var yamlKeyPool = []string{"a", "b", "c", "name", "list", "zz", "key", "id", "idToken", "nameLast", "k1", "k10", "200", "8080", "ok?"}
 
 func genYTree(t *rapid.T, depth int) JNode {
 	k := rapid.IntRange(0, 9).Draw(t, "yk")
@@ -1813,6 +1813,9 @@ type c17Matcher struct {
 
 type c17Case struct {
 	NoExisting bool       `json:"no_existing_entry,omitempty"` // ci / update_false: the slot of the call under test holds nothing
+	// ExistingSame: the slot already holds exactly what this document stores WITHOUT matchers (the matchers were added to a
+	// test that has its snapshot): a failing matcher fails the call all the same
+	ExistingSame bool `json:"existing_entry_is_the_document_itself,omitempty"`
 	Suffix   string       `json:"yaml_suffix,omitempty"` // yaml: appended to the document ("---\n": a trailing empty document)
 	Empty    *string      `json:"yaml_empty_doc,omitempty"` // yaml: the whole document is this (empty) text; every matcher path is missing
 	Kind     string       `json:"kind"` // json | sjson | yaml
@@ -1845,6 +1848,7 @@ func genC17(t *rapid.T) c17Case {
 	c := c17Case{Kind: rapid.SampledFrom([]string{"json", "json", "sjson", "yaml"}).Draw(t, "kind"), Test: genTestName(t),
 		ModeKind: rapid.SampledFrom([]string{"create", "update_existing", "update_false", "ci"}).Draw(t, "mode"), NoExisting: rapid.IntRange(0, 2).Draw(t, "noexisting") == 0,
 		Before:   rapid.IntRange(0, 2).Draw(t, "before"), After: rapid.IntRange(1, 3).Draw(t, "after")}
+	existingSame := c.ModeKind != "create" && rapid.IntRange(0, 3).Draw(t, "existingsame") == 0
 	yamlDoc := c.Kind == "yaml"
 	if yamlDoc {
 		c.Tree = genYRoot(t)
@@ -2025,7 +2029,18 @@ func genC17(t *rapid.T) c17Case {
 			used = append(used, comps)
 		}
 		m.Name = map[string]string{"any": "Any", "type": "Type", "custom": "Custom"}[m.Spec.Kind]
+		if (m.Spec.ErrMissing == nil || *m.Spec.ErrMissing) && rapid.IntRange(0, 4).Draw(t, "relaxedbefore") == 0 {
+			m.Spec.Relaxed = true
+		}
 		c.Matchers = append(c.Matchers, m)
+	}
+	if existingSame {
+		// (YAML that goes through matchers is re-serialised: only when a matcher fails is the outcome independent of that)
+		failing := false
+		for _, m := range c.Matchers {
+			failing = failing || m.Failing
+		}
+		c.ExistingSame = failing || !yamlDoc
 	}
 	return c
 }
@@ -2080,7 +2095,9 @@ func checkC17(c c17Case) error {
 		for i := 1; i <= c.Before; i++ {
 			filler(i).invoke(cfg, ft)
 		}
-		if !(c.NoExisting && c.ModeKind != "update_existing") {
+		if c.ExistingSame {
+			Call{API: c.Kind, Doc: BS(doc), Form: form}.invoke(cfg, ft) // slot k holds the document as it is
+		} else if !(c.NoExisting && c.ModeKind != "update_existing") {
 			filler(1000).invoke(cfg, ft) // slot k holds something else
 		}
 		ft.finish()
@@ -2151,6 +2168,15 @@ func checkC17(c c17Case) error {
 	} else {
 		// only tolerated missing paths: the comparison proceeds normally
 		want := map[string]string{"create": oAdded, "update_existing": oUpdated, "update_false": oFailed, "ci": oFailed}[c.ModeKind]
+		if c.ExistingSame && c.ModeKind != "create" {
+			untouched := true
+			for _, m := range c.Matchers {
+				untouched = untouched && m.Ignored
+			}
+			if untouched {
+				want = oPassed // the slot holds exactly this document
+			}
+		}
 		if out != want {
 			return fmt.Errorf("no matcher fails (missing paths are tolerated) in mode %s: outcome %q, want %q; errors=%q", c.ModeKind, out, want, clipAll(r.Errors))
 		}
